@@ -1,0 +1,38 @@
+//go:build verif
+
+// Contracts for govc (comment-only file; see /verif/DESIGN.md section 3).
+package types
+
+//@ func EmptyRID
+//@   nopanic[C05]
+//@   modifies nothing
+//@   allocates
+//@   ensures result != nil && len(result) == 32 && fresh(result)
+
+//@ func NewRID
+//@   nopanic[C05]
+//@   requires r != nil
+//@   modifies nothing
+//@   allocates
+//@   ensures result0 != nil && len(result0) == 32
+
+//@ func (RID).XOR
+//@   nopanic[C05]
+//@   requires len(rid) >= 32 && len(otherRID) >= 32
+//@   modifies elems(rid)
+
+//@ func (RID).Validate
+//@   nopanic[C05]
+//@   modifies nothing
+//@   allocates
+//@   ensures[C14] result == nil ==> len(rid) == 32
+
+//@ func (RID).Copy
+//@   nopanic[C05]
+//@   modifies nothing
+//@   allocates
+//@   ensures result != nil && len(result) == 32
+
+//@ func (RID).WriteTo
+//@   nopanic[C05]
+//@   requires w != nil
